@@ -91,12 +91,14 @@ ASSUMPTIONS = [
     'readlines(0): both "one line" (falcon) and "all lines" (io.IOBase) are accepted',
 ]
 RULE = ('random part: data over {a,b,CR,LF,-} (uniform or delimiter-sparse) of length 0..40 and, for a tenth of the cases, 150..4096; chunk size in {1..9,64}; '
-        'sync: max_len in {len, len-2, len-100, len+3, 0} and a short-read pattern (none / random caps 1..3 / all 1-byte / all 2-byte); async: source split into chunks of 0..9 bytes, '
-        'all 1-byte, one piece, or 64..1000-byte pieces, optionally yielding to the event loop; histories of 1..10 (a fifth: up to 30) operations over read/peek/read_until/pipe_until/pipe/'
-        'readline/readlines/exhaust/readall/iterate + delimit/pop up to two levels deep, delimiters {LF, -, CRLF, --, CRLF--, a-a, ab}; a quarter of the sync cases additionally address '
-        'parents of a live child and use invalid delimiters (model comparison only from there on). Grid part: every data string up to length 2 (quick) / 4 (thorough) x chunk sizes x '
-        'source patterns x every history up to length 2 (quick) / 3 (thorough) over a fixed op alphabet (sync 18 ops, async 17 ops) incl. delimit/pop. '
-        'non-trivial = some operation returned data; distinct = distinct (reader kind, construction, history)')
+        'sync: max_len in {len, len-2, len-100, len+3 (truncated body), 0} and a short-read pattern (none / random caps 1..3 / all 1-byte / all 2-byte); async: source split into chunks of '
+        '0..9 bytes, all 1-byte, one piece, or 64..1000-byte pieces, empty chunks anywhere, a tenth yielding to the event loop; histories of 1..10 (a fifth: 11..30) operations over '
+        'read/peek/read_until/pipe_until/pipe/readline/readlines/exhaust/readall/iterate + delimit/pop up to two levels deep (a dropped child is first exhausted in 60% of the cases); '
+        'delimiters from {LF, -, CRLF, --, CRLF--, a-a, ab} or cut out of the data around the cursor / the end of the buffered bytes (length 1..min(chunk,5)); sizes from a fixed list or '
+        'ending near the buffer border; a quarter of the sync cases additionally address parents of a live child and use invalid delimiters (model comparison only from there on). '
+        'Grid part: every data string up to length 3 (quick: complete to length 2, a fifth of length 3) / 4 (thorough) x chunk sizes {1..len+1, 64} x 3-4 source patterns x every history up '
+        'to length 2 (quick, and thorough for length-4 data) / 3 (thorough, data up to length 3) over a fixed op alphabet (sync 18 ops, async 17 ops) incl. delimit/pop; one in 40 grid cases '
+        'also goes to the model. non-trivial = some operation returned data; distinct = distinct (reader kind, construction, history)')
 PARTIAL = ('Proved for the sync reader over any lawful source (= every chunking): _perform_read, _read, read, peek, _read_until / read_until without delimiter consumption (both the join and the '
            'pipe_until branch), pipe_until with and without delimiter consumption, pipe, exhaust, readline, readlines, every history of _read/_read_until calls, and the consume_delimiter tail of '
            '_read_until for the three loop exits that do not locate the delimiter. Not proved (carried by correspondence + oracle): read_until(consume_delimiter=True) below the join limit on the two '
